@@ -31,6 +31,25 @@ ORACLES = {'c02'}
 EXTRA = [X.c02_oracles]
 
 
+def _with_pid(arg):
+    name, a = arg
+    return os.getpid(), globals()[name](a)
+
+
+def pmap(name, args, chunksize=1):
+    """run a case function in worker processes; afterwards remove what the workers left under .work/<pid> (a restore that failed
+    on a deliberately damaged repository leaves writer threads behind that re-create files after the scratch directory is removed)"""
+    import multiprocessing as mp
+    import shutil
+    from ..common import WORK
+    with mp.get_context('fork').Pool(min(16, os.cpu_count() or 4)) as pool:
+        got = pool.map(_with_pid, [(name, a) for a in args], chunksize=chunksize)
+    # leaving the `with` block TERMINATES the workers (a worker with blocked loader threads would never exit by itself)
+    for pid in {p for p, _ in got}:
+        shutil.rmtree(WORK / str(pid), ignore_errors=True)
+    return [r for _, r in got]
+
+
 def overlap_case(arg):
     """two users snapshot overlapping data CONCURRENTLY (one event loop, async backend); afterwards every snapshot restores
     exactly and the object map is consistent"""
@@ -282,15 +301,14 @@ def run_exhaustive(out, drv, max_len, sample_len, n_sample):
             args.extend((cfg, ops) for ops in itertools.product(ALPHABET, repeat=n))
         for _ in range(n_sample):
             args.append((cfg, tuple(r.choice(ALPHABET) for _ in range(sample_len))))
-    with mp.get_context('fork').Pool(min(16, os.cpu_count() or 4)) as pool:
-        for res in pool.imap_unordered(exhaustive_case, args, chunksize=8):
-            kinds = [k for k, _ in res['ops']]
-            out.case({'exhaustive': res['cfg'], 'ops': res['ops']}, any(k in ('del_old', 'del_new', 'clean') for k in kinds) and sum(k.startswith('snap') for k in kinds) >= 2)
-            out.count('exhaustive:' + res['cfg'] + ':len=%d' % len(res['ops']))
-            for sig, what in res['violations']:
-                out.violation(sig, what, {'kind': 'exhaustive', 'cfg': res['cfg'], 'ops': res['ops']})
-            if drv is not None:
-                check_exhaustive(res, drv, out)
+    for res in pmap('exhaustive_case', args, chunksize=8):
+        kinds = [k for k, _ in res['ops']]
+        out.case({'exhaustive': res['cfg'], 'ops': res['ops']}, any(k in ('del_old', 'del_new', 'clean') for k in kinds) and sum(k.startswith('snap') for k in kinds) >= 2)
+        out.count('exhaustive:' + res['cfg'] + ':len=%d' % len(res['ops']))
+        for sig, what in res['violations']:
+            out.violation(sig, what, {'kind': 'exhaustive', 'cfg': res['cfg'], 'ops': res['ops']})
+        if drv is not None:
+            check_exhaustive(res, drv, out)
 
 
 def run(out, drv, info):
@@ -309,8 +327,7 @@ def run(out, drv, info):
     # overlapping snapshots
     import multiprocessing as mp
     n_ov = 48 if quick else 400
-    with mp.get_context('fork').Pool(min(16, os.cpu_count() or 4)) as pool:
-        results = pool.map(overlap_case, [(out.seed, i) for i in range(n_ov)], chunksize=1)
+    results = pmap('overlap_case', [(out.seed, i) for i in range(n_ov)])
     for res in results:
         out.case(res['summary'], bool(res.get('shared_blocks')))
         out.count('overlap-case')
@@ -323,8 +340,7 @@ def run(out, drv, info):
         run_exhaustive(out, drv, 3, 4, 400)
     # commands cut short
     n_cr = 60 if quick else 1200
-    with mp.get_context('fork').Pool(min(16, os.cpu_count() or 4)) as pool:
-        results = pool.map(crash_case, [(out.seed, i) for i in range(n_cr)], chunksize=1)
+    results = pmap('crash_case', [(out.seed, i) for i in range(n_cr)])
     for res in results:
         out.case(res['summary'], res['interrupted'] and res['summary']['mutations_done'] > 0)
         out.count('crash:' + res['summary']['command'] + (':interrupted' if res['interrupted'] else ':completed-or-refused'))
@@ -334,8 +350,7 @@ def run(out, drv, info):
             check_crash_tie(res, drv, out)
     # restore tie
     n_rt = 40 if quick else 600
-    with mp.get_context('fork').Pool(min(16, os.cpu_count() or 4)) as pool:
-        results = pool.map(restore_tie_case, [(out.seed, i) for i in range(n_rt)], chunksize=1)
+    results = pmap('restore_tie_case', [(out.seed, i) for i in range(n_rt)])
     for res in results:
         out.case(res['summary'], res['summary']['snapshots'] >= 2 and len(res['summary']['users']) >= 2)
         out.count('restore-tie-case')
